@@ -4,7 +4,7 @@ from .. import core, epflow, gen, metacheck, oracles
 from .c10 import line_of
 
 THEOREMS = ["C14_grid_delivered_never_grows", "C14_exported_never_shrinks", "C14_nren_co2_never_grow", "C14_step_both_sources",
-            "C14_rer_with_renewable_cogeneration_refuted"]
+            "C14_ren_never_shrinks_without_cogeneration", "C14_ratio", "C14_rer_with_renewable_cogeneration_refuted"]
 
 
 def relate_more_pv(has_cogen):
